@@ -63,6 +63,15 @@ pub fn predicate(id: &str, v: &Violation) -> bool {
                 && sig_bool(v, "component_limits_respected") == Some(true)
                 && sig_bool(v, "negative") != Some(true)
         }
+        // The braking curve assumes friction braking only and every point of it carries the curve's final
+        // target; the controller brakes at full friction + dynamic force towards that target, so a train
+        // with few cars per locomotive stands still well before the end of its path with target speed 0.
+        "C03-stops-short-of-window-on-final-braking-curve" => {
+            v.monitor == "limit_run"
+                && v.clause == "comes to rest inside the stopping window and walk terminates"
+                && sig_bool(v, "at_rest") == Some(true)
+                && sig_bool(v, "speed_target_zero") == Some(true)
+        }
         _ => {
             let _ = (sig_bool(v, ""),);
             false
